@@ -6,7 +6,7 @@
    (covered by the source inventory + differential runs only).
    Only statements here, each closed by [exact <lemma>] and followed by Print Assumptions. *)
 From Coq Require Import List NArith ZArith QArith Bool Arith.
-From AIT Require Import Base.Qx Base.Mdp C16.Model C16.Spec C16.Proofs C16.ProofsPool.
+From AIT Require Import Base.Qx Base.Mdp C16.Model C16.Spec C16.Proofs C16.ProofsPool C16.ModelCall C16.ProofsCall.
 Import ListNotations.
 Local Open Scope nat_scope.
 
@@ -138,6 +138,81 @@ Theorem amdp_asis_ok_when_same_step :
 Proof. exact amdp_asis_same_step. Qed.
 Print Assumptions amdp_asis_ok_when_same_step.
 
+(* ---- per-call fields of solver objects: "every field is (re)initialised before it is used"
+        (C16/ModelCall.v: a call is a sequence of `field := fn(fields read)` with arbitrary functions;
+        only the order of the C++'s field accesses is modelled) ---- *)
+
+(* the general principle: a call body accepted by the checker returns the same value from any two
+   object states that agree on the declared fields D *)
+Theorem init_before_use_independent :
+  forall (V : Type) (p : list (stmt V)) (D rdeps : list nat) (rfn : list V -> V) (st1 st2 : fstate V),
+  init_before_use V D p rdeps = true -> (forall i, In i D -> st1 i = st2 i) ->
+  call_result V p rdeps rfn st1 = call_result V p rdeps rfn st2.
+Proof. exact init_before_use_sound. Qed.
+Print Assumptions init_before_use_independent.
+
+(* Witness::operator() (agenda_, triedVectors_ and the per-action locals): any horizon, any number of
+   actions, any number of agenda iterations, any functions — the returned value function does not depend
+   on what an earlier call left in the object *)
+Theorem witness_reuse_independent :
+  forall (V : Type) (w_clear w_default w_push w_lpreset w_lpadd w_best w_variations w_tried_ins w_pop w_collect w_project : list V -> V)
+         (h A k : nat) (rfn : list V -> V) (st1 st2 : fstate V),
+  call_result V (witness_call V w_clear w_default w_push w_lpreset w_lpadd w_best w_variations w_tried_ins w_pop w_collect w_project true h A k) [W_v] rfn st1 =
+  call_result V (witness_call V w_clear w_default w_push w_lpreset w_lpadd w_best w_variations w_tried_ins w_pop w_collect w_project true h A k) [W_v] rfn st2.
+Proof. exact witness_reuse_independent_lemma. Qed.
+Print Assumptions witness_reuse_independent.
+
+(* the same call without `triedVectors_.clear()`: rejected by the checker, and observably dependent *)
+Theorem witness_without_clear_refuted :
+  exists (h A k : nat) (st1 st2 : fstate nat),
+    call_result nat (witness_call nat sumf sumf sumf sumf sumf sumf sumf sumf sumf sumf sumf false h A k) [W_v] sumf st1 <>
+    call_result nat (witness_call nat sumf sumf sumf sumf sumf sumf sumf sumf sumf sumf sumf false h A k) [W_v] sumf st2.
+Proof. exact witness_noclear_refuted. Qed.
+Print Assumptions witness_without_clear_refuted.
+
+(* SARSOP::operator(): delta_, treeStorage_, beliefToNode_, predictors_, sampledNodes_, backuppedActions_,
+   the temporary beliefs; declared input initialDelta_ *)
+Theorem sarsop_reuse_independent :
+  forall (V : Type) (s_copy s_clear s_bounds s_root s_sample s_expand s_backup s_backed_fill s_prune s_dupdate s_tmpw : list V -> V)
+         (k : nat) (rfn : list V -> V) (st1 st2 : fstate V),
+  st1 S_initDelta = st2 S_initDelta ->
+  call_result V (sarsop_call V s_copy s_clear s_bounds s_root s_sample s_expand s_backup s_backed_fill s_prune s_dupdate s_tmpw true k) sarsop_result_deps rfn st1 =
+  call_result V (sarsop_call V s_copy s_clear s_bounds s_root s_sample s_expand s_backup s_backed_fill s_prune s_dupdate s_tmpw true k) sarsop_result_deps rfn st2.
+Proof. exact sarsop_reuse_independent_lemma. Qed.
+Print Assumptions sarsop_reuse_independent.
+
+(* SARSOP without `delta_ = initialDelta_` at the start of the call (the seeded change of notes/C16.md):
+   rejected by the checker for every k >= 1, and observably dependent on the left-over delta_ *)
+Theorem sarsop_without_delta_reset_rejected :
+  forall (V : Type) (s_copy s_clear s_bounds s_root s_sample s_expand s_backup s_backed_fill s_prune s_dupdate s_tmpw : list V -> V) (k : nat),
+  init_before_use V [S_initDelta]
+    (sarsop_call V s_copy s_clear s_bounds s_root s_sample s_expand s_backup s_backed_fill s_prune s_dupdate s_tmpw false (S k)) sarsop_result_deps = false.
+Proof. exact sarsop_nodeltareset_rejected. Qed.
+Print Assumptions sarsop_without_delta_reset_rejected.
+
+Theorem sarsop_without_delta_reset_refuted :
+  exists (k : nat) (st1 st2 : fstate nat), st1 S_initDelta = st2 S_initDelta /\
+    call_result nat (sarsop_call nat sumf sumf sumf sumf sumf sumf sumf sumf sumf sumf sumf false k) sarsop_result_deps sumf st1 <>
+    call_result nat (sarsop_call nat sumf sumf sumf sumf sumf sumf sumf sumf sumf sumf sumf false k) sarsop_result_deps sumf st2.
+Proof. exact sarsop_nodeltareset_refuted. Qed.
+Print Assumptions sarsop_without_delta_reset_refuted.
+
+(* GapMin::operator(): tolerance_ is reset from initialTolerance_ before the bounds use it *)
+Theorem gapmin_reuse_independent :
+  forall (V : Type) (g_copy g_init g_step g_tolupdate : list V -> V) (k : nat) (rfn : list V -> V) (st1 st2 : fstate V),
+  st1 G_initTol = st2 G_initTol ->
+  call_result V (gapmin_call V g_copy g_init g_step g_tolupdate true k) [G_lb; G_ub] rfn st1 =
+  call_result V (gapmin_call V g_copy g_init g_step g_tolupdate true k) [G_lb; G_ub] rfn st2.
+Proof. exact gapmin_reuse_independent_lemma. Qed.
+Print Assumptions gapmin_reuse_independent.
+
+Theorem gapmin_without_tolerance_reset_refuted :
+  exists (k : nat) (st1 st2 : fstate nat), st1 G_initTol = st2 G_initTol /\
+    call_result nat (gapmin_call nat sumf sumf sumf sumf false k) [G_lb; G_ub] sumf st1 <>
+    call_result nat (gapmin_call nat sumf sumf sumf sumf false k) [G_lb; G_ub] sumf st2.
+Proof. exact gapmin_notolreset_refuted. Qed.
+Print Assumptions gapmin_without_tolerance_reset_refuted.
+
 (* ---------------------------------------------------------------- satisfiability / sensitivity *)
 (* a toy engine (state = counter) on which the Seeder programs do something *)
 Definition toy_next (st : N) : N * N := (N.succ st, (st * 7 + 3)%N).
@@ -180,4 +255,13 @@ Example ex_pool_noreset_leaks :
 Proof. exact pool_noreset_counterexample. Qed.
 
 Example ex_amdp_fixed : amdp_disc lg2 2 4 [1#2; 1#2]%Q = 6 /\ amdp_disc lg2 4 4 [1#2; 1#4; 1#4; 0]%Q = 12.
+Proof. vm_compute. split; reflexivity. Qed.
+
+(* the call skeletons do something: SARSOP skeleton, 2 iterations, numbers as fields; two object
+   states that differ in every per-call field give the same result *)
+Example ex_sarsop_call :
+  call_result nat (sarsop_call nat sumf sumf sumf sumf sumf sumf sumf sumf sumf sumf sumf true 2) sarsop_result_deps sumf (fun _ => 0)
+  = call_result nat (sarsop_call nat sumf sumf sumf sumf sumf sumf sumf sumf sumf sumf sumf true 2) sarsop_result_deps sumf
+      (fun i => if Nat.eqb i S_initDelta then 0 else 7 * i + 1)
+  /\ init_before_use nat [S_initDelta] (sarsop_call nat sumf sumf sumf sumf sumf sumf sumf sumf sumf sumf sumf true 2) sarsop_result_deps = true.
 Proof. vm_compute. split; reflexivity. Qed.
